@@ -1,5 +1,5 @@
 CONSTANTS
-  Mode = "trees"
+  Mode = "both"
   Tier = "thorough"
   Parts = {1, 2, 3, 4, 5, 6, 7, 8, 9, 10}
 INIT Init
